@@ -143,7 +143,25 @@ func c17Eval(v ssa.Value, facts c17Facts, b, pred *ssa.BasicBlock, d int) (const
 		if x.Value != nil {
 			return x.Value, true
 		}
+		switch x.Type().Underlying().(type) {
+		case *types.Interface, *types.Pointer, *types.Slice, *types.Map, *types.Chan, *types.Signature:
+			return c17NilMark, true
+		}
+	case *ssa.MakeInterface, *ssa.Alloc, *ssa.MakeClosure:
+		// an interface holding a value, a fresh allocation, a function literal: never nil
+		return c17NonNilMark, true
+	case *ssa.Call:
+		switch c17CalleeName(x.Call.StaticCallee()) {
+		case "fmt.Errorf", "errors.New":
+			return c17NonNilMark, true
+		}
 	case *ssa.UnOp:
+		if g, isG := x.X.(*ssa.Global); isG && x.Op == token.MUL {
+			// return errConflict: a package-level sentinel error is a non-nil value
+			if _, isI := x.Type().Underlying().(*types.Interface); isI && strings.HasPrefix(strings.ToLower(g.Name()), "err") {
+				return c17NonNilMark, true
+			}
+		}
 		if x.Op == token.NOT {
 			if c, ok := c17Eval(x.X, facts, b, pred, d+1); ok && c.Kind() == constant.Bool {
 				return constant.MakeBool(!constant.BoolVal(c)), true
@@ -173,9 +191,36 @@ func c17Eval(v ssa.Value, facts c17Facts, b, pred *ssa.BasicBlock, d int) (const
 	return nil, false
 }
 
+// nil-ness of reference-typed values (err != nil after `return fmt.Errorf(…)` / `return nil`)
+var (
+	c17NilMark    = constant.MakeString("\x00nil")
+	c17NonNilMark = constant.MakeString("\x00non-nil")
+)
+
 type c17RetVal struct {
 	known bool
 	val   constant.Value
+	// multi-value returns (done bool, err error): the evaluated components, nil where the
+	// value is not a constant under the facts
+	multi []constant.Value
+}
+
+func (rv c17RetVal) key() string {
+	if rv.multi != nil {
+		var ks []string
+		for _, c := range rv.multi {
+			if c == nil {
+				ks = append(ks, "?")
+			} else {
+				ks = append(ks, c.ExactString())
+			}
+		}
+		return "(" + strings.Join(ks, ",") + ")"
+	}
+	if rv.known {
+		return rv.val.ExactString()
+	}
+	return "?"
 }
 
 type c17Explorer struct {
@@ -239,7 +284,14 @@ func (e *c17Explorer) explore(fn *ssa.Function, start *ssa.BasicBlock, after ssa
 			rv := c17RetVal{}
 			if len(t.Results) == 1 {
 				if c, ok := c17Eval(t.Results[0], facts, it.b, it.pred, 0); ok {
-					rv = c17RetVal{true, c}
+					rv = c17RetVal{known: true, val: c}
+				}
+			} else if len(t.Results) > 1 {
+				rv.multi = make([]constant.Value, len(t.Results))
+				for k, res := range t.Results {
+					if c, ok := c17Eval(res, facts, it.b, it.pred, 0); ok {
+						rv.multi[k] = c
+					}
 				}
 			}
 			rets = append(rets, rv)
@@ -383,8 +435,19 @@ func c17ConflictUnique(c *Ctx) {
 				}
 				construct := fmt.Sprintf("%s: after %s == Unique (#%d)%s the table is not modified", p.FuncName(fn), what, ord, where)
 				facts := c17Facts{bo: constant.MakeBool(bo.Op == token.EQL)}
-				hits := c17ExploreUp(ex, g, b, bo, facts, callers, fn, 0)
-				if len(hits) == 0 {
+				allHits := c17ExploreUp(ex, g, b, bo, facts, callers, fn, 0)
+				var hits, unread []string
+				for _, h := range allHits {
+					if strings.HasPrefix(h, c17UnknownResume) {
+						unread = append(unread, strings.TrimPrefix(h, c17UnknownResume))
+					} else {
+						hits = append(hits, h)
+					}
+				}
+				if len(hits) == 0 && len(unread) > 0 {
+					r.OK(rule, construct, p.Rel(bo.Pos()), "NOT DECIDED — the outcome leaves its helper with a result the walk cannot evaluate, so the caller's test of that result was not read: "+strings.Join(uniqStrings(unread), "; "))
+					r.Note("C17 conflict-unique: %s NOT DECIDED — %s", construct, strings.Join(uniqStrings(unread), "; "))
+				} else if len(hits) == 0 {
 					r.OK(rule, construct, p.Rel(bo.Pos()), "every path from the is-Unique outcome returns without touching the table")
 				} else {
 					r.Fail(rule, construct, p.Rel(bo.Pos()), "a registration that conflicts with a unique name can still reach "+strings.Join(uniqStrings(hits), ", ")+": an existing registration (a whole group, or another node's unique name) is overwritten")
@@ -409,10 +472,22 @@ func c17ConflictUnique(c *Ctx) {
 
 // c17ExploreUp explores from an instruction under facts; when the function is a
 // helper, the walk resumes after every call site with the returned constant.
+// c17UnknownResume prefixes the hits that were reached only after the walk resumed behind a
+// call site WITHOUT knowing what the helper returned (the is-Unique outcome left the helper
+// with a value the walk cannot evaluate): on those paths the caller's own test of the result
+// was not read, so they are no evidence of a violation.
+const c17UnknownResume = "\x00unknown-resume:"
+
 func c17ExploreUp(ex *c17Explorer, g *ssa.Function, b *ssa.BasicBlock, after ssa.Instruction, facts c17Facts, callers map[*ssa.Function][]*ssa.Call, entry *ssa.Function, depth int) []string {
 	hits, rets := ex.explore(g, b, after, facts)
 	top := c17TopOf(g)
-	if top == entry || depth >= 3 {
+	if top == entry {
+		return hits
+	}
+	if depth >= 3 {
+		if len(callers[top]) > 0 {
+			hits = append(hits, c17UnknownResume+"helper chain deeper than 3 calls above "+top.Name())
+		}
 		return hits
 	}
 	if g != top {
@@ -426,11 +501,7 @@ func c17ExploreUp(ex *c17Explorer, g *ssa.Function, b *ssa.BasicBlock, after ssa
 	// distinct outcomes of the helper under the fact
 	outcomes := map[string]c17RetVal{}
 	for _, rv := range rets {
-		k := "?"
-		if rv.known {
-			k = rv.val.ExactString()
-		}
-		outcomes[k] = rv
+		outcomes[rv.key()] = rv
 	}
 	for _, call := range sites {
 		for _, rv := range outcomes {
@@ -438,7 +509,30 @@ func c17ExploreUp(ex *c17Explorer, g *ssa.Function, b *ssa.BasicBlock, after ssa
 			if rv.known {
 				f2[call] = rv.val
 			}
-			hits = append(hits, c17ExploreUp(ex, call.Parent(), call.Block(), call, f2, callers, entry, depth+1)...)
+			if rv.multi != nil {
+				// done, err := helper(…): each extracted component that is a constant is a fact
+				if refs := call.Referrers(); refs != nil {
+					for _, ref := range *refs {
+						if ex, isEx := ref.(*ssa.Extract); isEx && ex.Index < len(rv.multi) && rv.multi[ex.Index] != nil {
+							f2[ex] = rv.multi[ex.Index]
+						}
+					}
+				}
+			}
+			sub := c17ExploreUp(ex, call.Parent(), call.Block(), call, f2, callers, entry, depth+1)
+			// A boolean / enum result that the fact does not determine can really take either
+			// value (conflicts(a, b) = a == Unique && b == Unique under "a is Unique"): both
+			// continuations are genuine paths. Only a reference-typed result whose nil-ness the
+			// walk cannot evaluate (an error value built somewhere else) leaves the caller's
+			// `!= nil` test unread.
+			if len(f2) == 0 && c17OpaqueResults(top) {
+				for i, h := range sub {
+					if !strings.HasPrefix(h, c17UnknownResume) {
+						sub[i] = c17UnknownResume + h + " (after " + top.Name() + " returned a value the walk could not evaluate)"
+					}
+				}
+			}
+			hits = append(hits, sub...)
 		}
 	}
 	return hits
@@ -959,4 +1053,19 @@ func withClosures(fn *ssa.Function) []*ssa.Function {
 		out = append(out, withClosures(a)...)
 	}
 	return out
+}
+
+// c17OpaqueResults: every result of fn is reference-typed (error, pointer, …): the walk has
+// no way to enumerate its values.
+func c17OpaqueResults(fn *ssa.Function) bool {
+	res := fn.Signature.Results()
+	if res.Len() == 0 {
+		return false
+	}
+	for i := 0; i < res.Len(); i++ {
+		if _, isBasic := res.At(i).Type().Underlying().(*types.Basic); isBasic {
+			return false
+		}
+	}
+	return true
 }
